@@ -1,7 +1,8 @@
 (* C10 — exported theorems only: each is closed by [exact] and followed by Print Assumptions. *)
 From Coq Require Import List ZArith Bool.
 From Verif Require Import Gen.Gen_consts C10.Model C10.Spec
-  C10.Proofs_Pick C10.Proofs_Adjust C10.Proofs_Budget C10.Proofs_Float C10.Proofs.
+  C10.Proofs_Pick C10.Proofs_Adjust C10.Proofs_Budget C10.Proofs_Float C10.Proofs
+  C10.Cases C10.Proofs_Cases C10.Proofs_Paired.
 Import ListNotations.
 Open Scope Z_scope.
 
@@ -105,6 +106,16 @@ Theorem c10_pick_model : forall n ps, NoDup (map cpu ps) -> pick_code n ps (pick
 Proof. exact pick_code_model. Qed.
 Print Assumptions c10_pick_model.
 
+(* core-paired selection: sibling pairs first, then single cpus; while two or more cpus were
+   still needed when the pair phase ended, no (node,socket) bucket had a free sibling pair left *)
+Theorem c10_pick_core_paired : forall n ps, n <= lenZ ps ->
+  exists prs singles,
+    pick n ps = flat_map (fun pq => [cpu (fst pq); cpu (snd pq)]) prs ++ singles
+    /\ sib_pairs (buckets_of ps) prs
+    /\ (n - 2 * lenZ prs <= 1 \/ no_free_pair (buckets_of ps) (flat_pairs (rev prs))).
+Proof. exact pick_core_paired. Qed.
+Print Assumptions c10_pick_core_paired.
+
 (* ======================================================================== cpuset *)
 
 (* target = min(max(ceil(budget/1000), 2), |old| + ceil(nprocs/10)); the literals are the ones of
@@ -132,9 +143,15 @@ Theorem c10_count_lower_refuted : exists b o np, 0 <= o /\ 0 <= np /\ target_cou
 Proof. exact count_lower_refuted. Qed.
 Print Assumptions c10_count_lower_refuted.
 
-(* No cpu handed to BE is owned by an LSE pod, reserved for the node or exclusive to system QoS,
-   and every one exists.  Hypotheses: processor ids are distinct; no cpu of an LSE pod is also
-   listed by a later pod of another class ([consistent]). *)
+(* The repaired cpuIdToPool classifies a cpu as LSE exactly when some LSE pod lists it, whatever
+   the order of the pod list and whatever other pods list it too. *)
+Theorem c10_pool_lse_sticky : forall pods c, (pool_of pods c =? Q_LSE) = lse_owned pods c.
+Proof. exact pool_lse_iff. Qed.
+Print Assumptions c10_pool_lse_sticky.
+
+(* No cpu handed to BE is owned by an LSE pod (in any pod order, with any overlapping
+   annotations), reserved for the node or exclusive to system QoS, and every one exists.
+   Only hypothesis: processor ids are distinct ([adjust_wf]). *)
 Theorem c10_no_protected : forall i be c, adjust_wf i -> be_cpuset i = Some be -> In c be ->
   In c (map cpu (a_procs i)) /\ lse_owned (a_pods i) c = false
   /\ ~ In c (a_reserved i) /\ ~ In c (a_sysexcl i).
@@ -175,17 +192,6 @@ Theorem c10_recover_no_protected : forall i, unprotected_existing i (recover_set
 Proof. exact recover_set_ok. Qed.
 Print Assumptions c10_recover_no_protected.
 
-(* FINDING: without [consistent] the sentence is false of the faithful model (and of the code) *)
-Theorem c10_lse_overwritten_refuted :
-  exists i, NoDup (map cpu (a_procs i)) /\
-            exists c, In c (snd (adjust i)) /\ lse_owned (a_pods i) c = true.
-Proof. exact lse_overwritten_refuted. Qed.
-Print Assumptions c10_lse_overwritten_refuted.
-
-Theorem c10_lse_order_dependent : adjust w_overwritten <> adjust w_ordered.
-Proof. exact lse_order_dependent. Qed.
-Print Assumptions c10_lse_order_dependent.
-
 (* ======================================================================== quota *)
 
 (* quota = max(budget * period / 1000, beMinQuota) unless the change is inside the bypass window
@@ -211,15 +217,36 @@ Theorem c10_quota_model : forall b cap cur, quota_code b cap cur (quota_new b ca
 Proof. exact quota_code_model. Qed.
 Print Assumptions c10_quota_model.
 
+(* ======================================================================== what is extracted *)
+
+(* MAIN THEOREM over exactly the functions Extract.v extracts and bin/check runs: on every
+   well-formed wire input (distinct processor ids, reservation below
+   2^50 milli-CPU, non-negative usages) the property's decision procedure accepts the model's
+   observable.  [prop_case] is what is evaluated on the IMPLEMENTATION's observable, and
+   [run_case inp = obs] is what the correspondence check compares. *)
+Theorem c10_cases_sound : forall inp, wf_case inp = true -> prop_case inp (run_case inp) = 0.
+Proof. exact cases_sound. Qed.
+Print Assumptions c10_cases_sound.
+
 (* ======================================================================== non-vacuity *)
 
 Example c10_nv_wf :
   let i := mkA 2000 false [0; 1] w_procs [mkCpod Q_LSR [2; 3]; mkCpod Q_LSE [2; 3]] [] [] in
-  adjust_wf i /\ be_cpuset i = Some [0; 1] /\ adjust_wf w_ordered.
+  adjust_wf i /\ be_cpuset i = Some [0; 1] /\ adjust_wf w_overwritten.
 Proof.
-  cbv zeta. split; [split; [apply nodupb_spec|]|split; [|split; [apply nodupb_spec|]]];
-    vm_compute; reflexivity.
+  cbv zeta. split; [apply nodupb_spec|split; [|apply nodupb_spec]]; vm_compute; reflexivity.
 Qed.
+
+(* regression for the repaired finding (fix 62333f7): the OLD last-writer-wins map classified
+   cpu 2 of the LSE pod as LSR when an LSR pod listing it came later, and depended on the pod
+   order; the repaired map and the files written for both orders do not *)
+Example c10_lse_overwritten_old_pool :
+  pool_of_old w_pods_a 2 = Q_LSR /\ lse_owned w_pods_a 2 = true /\ pool_of w_pods_a 2 = Q_LSE.
+Proof. vm_compute. repeat split; reflexivity. Qed.
+Example c10_lse_order_dependent_old_pool :
+  pool_of_old w_pods_a 2 <> pool_of_old w_pods_b 2 /\ pool_of w_pods_a 2 = pool_of w_pods_b 2
+  /\ adjust w_overwritten = adjust w_ordered /\ snd (adjust w_overwritten) = [0; 1].
+Proof. vm_compute. repeat split; discriminate || reflexivity. Qed.
 
 Example c10_nv_rt : rt_ok w_rt = true /\ rt_exact w_rt = false
                     /\ rt_exact (mkB 8000 7000 0 100 None 0 [] []) = true.
@@ -240,3 +267,10 @@ Qed.
 
 Example c10_nv_pick : pick 3 w_procs = [0; 1; 2] /\ NoDup (map cpu w_procs).
 Proof. split; [vm_compute; reflexivity | apply nodupb_spec; vm_compute; reflexivity]. Qed.
+
+Example c10_nv_cases :
+  wf_case [3; 3000; 0; 2; 0; 1; 4; 0;0;0;0; 1;0;0;0; 2;1;0;0; 3;1;0;0; 2; 2;2;2;3; 1;2;2;3; 0;0; 0;0] = true
+  /\ wf_case [2; 3; 3; 0;0;0;0; 1;0;0;0; 2;1;0;0] = true
+  /\ wf_case [1; 8000; 6999; 0; 0; 100; 0; 0; 0; 0; 0; 0; 0; 0] = true
+  /\ wf_case [4; 20000; 80000; -1] = true.
+Proof. vm_compute. repeat split; reflexivity. Qed.
